@@ -26,6 +26,7 @@
 From Coq Require Import ZArith List Bool.
 From BP Require Import Base.Prelude Model.Grpc Model.C16SrcLib Model.C11SrcLib Model.C11SrcGlue gen.C11Src.
 From BP Require Import Proofs.GrpcP Proofs.C11Src.
+From BP Require Model.C11GapDefs.
 Import ListNotations.
 Local Open Scope Z_scope.
 
@@ -144,6 +145,13 @@ Theorem C11Src_shadowed_method_model_witness :
     = Some ([(key_timeout, InOne (Some a_msg))], CRes [o_msg] CDone).
 Proof. exact shadowed_method_model_witness. Qed.
 Print Assumptions C11Src_shadowed_method_model_witness.
+
+(* ---- gap closing (Properties/C11.v, C11_routes_instance / C11_payload_instance / C11_shadowed_instance_refuted): the four names that
+        Model/C11GapDefs.v's instance lookup [stub_getattr] / [shadowedb] treats as instance attributes ARE the attributes the
+        translated ServiceStub.__init__ assigns, read from the current source ---- *)
+Theorem C11Src_gap_instance_attrs : BP.Model.C11GapDefs.stub_instance_attrs = src_ServiceStub_attr_names.
+Proof. reflexivity. Qed.
+Print Assumptions C11Src_gap_instance_attrs.
 
 (* ---- non-vacuity ---- *)
 (* the translation was accepted (the flag is false, and the definitions absent, when the translator rejects) *)
